@@ -144,3 +144,8 @@ Proof.
   intros H. rewrite (proj2 (div_Cdiv x z H)). pose proof (C_neq0 z H) as Hq. destruct z as [c d], x as [a b].
   unfold mul_, Cdiv, Cmult, Cinv; cx. apply pair_eq; field; nra.
 Qed.
+
+Lemma half_is_2 (x : R) : half RO = / 2.
+Proof. unfold half; cx. unfold powerRZ. simpl. field. Qed.
+Lemma quarter_is (x : R) : quarter RO = / 4.
+Proof. unfold quarter; cx. unfold powerRZ. simpl. field. Qed.
